@@ -135,6 +135,24 @@ func (e *Env) lookupIdent(name string) (cval, bool, error) {
 	if e.bound[name] {
 		return e.vars[name], true, nil
 	}
+	// rangeindexN: the index phi of (enclosing) range loop N
+	if e.fr != nil && strings.HasPrefix(name, "rangeindex") && len(name) > len("rangeindex") {
+		var n int
+		if _, err := fmt.Sscanf(name[len("rangeindex"):], "%d", &n); err == nil {
+			for _, li := range e.fr.loops {
+				if li.ord != n {
+					continue
+				}
+				for _, in := range li.head.Instrs {
+					if phi, ok := in.(*ssa.Phi); ok && phi.Comment == "rangeindex" {
+						if v, ok := e.fr.vals[phi]; ok {
+							return cval{t: v, typ: phi.Type()}, true, nil
+						}
+					}
+				}
+			}
+		}
+	}
 	if e.fr != nil && e.loop != nil {
 		if v, ok := e.fr.lookupCurrent(name, e.st, e.loop); ok {
 			return v, true, nil
